@@ -63,11 +63,14 @@ def struct_diff(t1, t2):
                 else:
                     rec(x, y, '%s[%d]' % (path, i))
         elif isinstance(a, (set, frozenset)):
+            # membership is type-aware for booleans (True is not the int 1: the same distinction the definition makes for list items)
+            def member(x, s):
+                return any(y == x and isinstance(y, bool) == isinstance(x, bool) for y in s)
             for x in b:
-                if x not in a:
+                if not member(x, a):
                     out.setdefault('set_item_added', set()).add('%s[%s]' % (path, show_item(x)))
             for x in a:
-                if x not in b:
+                if not member(x, b):
                     out.setdefault('set_item_removed', set()).add('%s[%s]' % (path, show_item(x)))
         elif isinstance(a, (str, bytes)):
             if a != b:
